@@ -49,7 +49,7 @@
 
 From Coq Require Import PrimFloat.
 From Coq Require Import ZArith List Bool Reals Lra Permutation Sorted.
-From BZ Require Import Base.Ops Gen.Point Gen.BBox Gen.Line Gen.Quad Gen.Cubic Hand.Bounds Hand.Shoelace Hand.Winding Proofs.C05 Proofs.C11.
+From BZ Require Import Base.Ops Gen.Point Gen.BBox Gen.Line Gen.Quad Gen.Cubic Hand.Bounds Hand.Shoelace Hand.Winding Proofs.C05 Proofs.C11 Proofs.C11curves.
 Import ListNotations.
 Open Scope R_scope.
 
@@ -113,6 +113,63 @@ Proof. exact long_ray_refuted. Qed.
 Theorem C11_degenerate_ray_refuted :
   exists ls b0 x y, closed_chain ls /\ path_box ROps (map SLine ls) = Some b0 /\ (forall e, In e ls -> edge_gp e y) /\ Nat.odd (length (filter (left_of x y) ls)) = true /\ pointIsInside ROps (map SLine ls) (P x y) = Some false.
 Proof. exact degenerate_ray_refuted. Qed.
+Theorem C11_poly_root_parity :
+  forall (l : list R) (roots : list R), NoDup roots -> (forall r, In r roots <-> 0 < r < 1 /\ peval l r = 0) -> (forall r, In r roots -> pderiv l r <> 0) -> peval l 0 <> 0 -> peval l 1 <> 0 -> (Nat.odd (length roots) = true <-> peval l 0 * peval l 1 < 0).
+Proof. exact poly_root_parity. Qed.
+Theorem C11_cubic_root_parity :
+  forall (a b c d : R) (roots : list R), let p := fun t => a * t * t * t + b * t * t + c * t + d in let p' := fun t => 3 * a * t * t + 2 * b * t + c in NoDup roots -> (forall r, In r roots <-> 0 < r < 1 /\ p r = 0) -> (forall r, In r roots -> p' r <> 0) -> p 0 <> 0 -> p 1 <> 0 -> (Nat.odd (length roots) = true <-> p 0 * p 1 < 0).
+Proof. exact cubic_root_parity. Qed.
+Theorem C11_quadratic_root_parity :
+  forall (a b c : R) (roots : list R), let p := fun t => a * t * t + b * t + c in let p' := fun t => 2 * a * t + b in NoDup roots -> (forall r, In r roots <-> 0 < r < 1 /\ p r = 0) -> (forall r, In r roots -> p' r <> 0) -> p 0 <> 0 -> p 1 <> 0 -> (Nat.odd (length roots) = true <-> p 0 * p 1 < 0).
+Proof. exact quadratic_root_parity. Qed.
+Theorem C11_poly_roots_finite :
+  forall (l : list R), (exists t, peval l t <> 0) -> exists roots, NoDup roots /\ forall r, In r roots <-> 0 < r < 1 /\ peval l r = 0.
+Proof. exact poly_roots_finite. Qed.
+Theorem C11_segment_crossing_parity :
+  forall (y : R) (s : segment R) (rs : list R), level_roots y s rs -> py (seg_start s) <> y -> py (seg_end s) <> y -> (Nat.odd (length rs) = true <-> (py (seg_start s) - y) * (py (seg_end s) - y) < 0).
+Proof. exact segment_crossing_parity. Qed.
+Theorem C11_segment_crossings_finite :
+  forall (y : R) (s : segment R), py (seg_start s) <> y -> exists rs, NoDup rs /\ forall r, In r rs <-> 0 < r < 1 /\ py (seg_point s r) = y.
+Proof. exact segment_crossings_finite. Qed.
+Theorem C11_closed_mixed_balance :
+  forall (y : R) (srs : xpath), mclosed_chain (map fst srs) -> (forall sr, In sr srs -> level_ok y sr) -> Nat.even (total_crossings srs) = true.
+Proof. exact closed_mixed_balance. Qed.
+Theorem C11_left_right_parity :
+  forall (x y : R) (srs : xpath), mclosed_chain (map fst srs) -> (forall sr, In sr srs -> level_ok y sr) -> off_path (map fst srs) (P x y) -> (count_if (left_c x) srs + count_if (right_c x) srs = total_crossings srs)%nat /\ Nat.odd (count_if (left_c x) srs) = Nat.odd (count_if (right_c x) srs).
+Proof. exact left_right_parity. Qed.
+Theorem C11_closed_mixed_signed_balance :
+  forall (y : R) (srs : xpath), mclosed_chain (map fst srs) -> (forall sr, In sr srs -> level_ok y sr) -> signed_total srs = 0%Z.
+Proof. exact closed_mixed_signed_balance. Qed.
+Theorem C11_left_right_signed :
+  forall (x y : R) (srs : xpath), mclosed_chain (map fst srs) -> (forall sr, In sr srs -> level_ok y sr) -> (forall sr, In sr srs -> forall r, In r (snd sr) -> px (seg_point (fst sr) r) <> x) -> (signed_if (left_c x) srs + signed_if (right_c x) srs = 0)%Z /\ Z.abs (signed_if (left_c x) srs) = Z.abs (signed_if (right_c x) srs).
+Proof. exact left_right_signed. Qed.
+Theorem C11_mixed_dict_counts :
+  forall srs b0 x y, mixed_query srs b0 x y -> length (collect ROps (map fst srs) (hray (px (bl b0) - 10) x y)) = count_if (left_c x) srs /\ length (collect ROps (map fst srs) (hray (px (tr b0) + 10) x y)) = count_if (right_c x) srs.
+Proof. exact mixed_dict_counts. Qed.
+Theorem C11_mixed_winding_number :
+  forall srs b0 x y, mixed_query srs b0 x y -> windingNumberOfPoint ROps (map fst srs) (P x y) = Some (Z.abs (signed_if (left_c x) srs)) /\ Z.abs (signed_if (left_c x) srs) = Z.abs (signed_if (right_c x) srs).
+Proof. exact mixed_winding_number. Qed.
+Theorem C11_mixed_even_odd :
+  forall srs b0 x y, mixed_query srs b0 x y -> pointIsInside ROps (map fst srs) (P x y) = Some (Nat.odd (count_if (left_c x) srs)) /\ Nat.odd (count_if (left_c x) srs) = Nat.odd (count_if (right_c x) srs).
+Proof. exact mixed_even_odd. Qed.
+Theorem C11_polygon_mixed_query :
+  forall ls b0 x y, polygon_query ls b0 x y -> mixed_query (polygon_xpath y ls) b0 x y.
+Proof. exact polygon_mixed_query. Qed.
+Theorem C11_tri_mixed_query :
+  mixed_query (polygon_xpath 5 tri) tri_box 10 5.
+Proof. exact tri_mixed_query. Qed.
+Theorem C11_dD_at_4_balance :
+  mclosed_chain (map fst dD_at_4) /\ (forall sr, In sr dD_at_4 -> level_ok 4 sr) /\ total_crossings dD_at_4 = 2%nat /\ Nat.even (total_crossings dD_at_4) = true.
+Proof. exact dD_at_4_balance. Qed.
+Theorem C11_lens_query :
+  mixed_query lens_x lens_box 1 (15 / 4).
+Proof. exact lens_query. Qed.
+Theorem C11_lens_inside :
+  pointIsInside ROps lens (P 1 (15 / 4)) = Some true.
+Proof. exact lens_inside. Qed.
+Theorem C11_lens_winding :
+  windingNumberOfPoint ROps lens (P 1 (15 / 4)) = Some 1%Z.
+Proof. exact lens_winding. Qed.
 
 Print Assumptions C11_abs_sum_signs_parity.
 Print Assumptions C11_winding_sum_parity_any.
@@ -134,3 +191,22 @@ Print Assumptions C11_merged_crossing_refuted.
 Print Assumptions C11_vertical_recheck_refuted.
 Print Assumptions C11_long_ray_refuted.
 Print Assumptions C11_degenerate_ray_refuted.
+Print Assumptions C11_poly_root_parity.
+Print Assumptions C11_cubic_root_parity.
+Print Assumptions C11_quadratic_root_parity.
+Print Assumptions C11_poly_roots_finite.
+Print Assumptions C11_segment_crossing_parity.
+Print Assumptions C11_segment_crossings_finite.
+Print Assumptions C11_closed_mixed_balance.
+Print Assumptions C11_left_right_parity.
+Print Assumptions C11_closed_mixed_signed_balance.
+Print Assumptions C11_left_right_signed.
+Print Assumptions C11_mixed_dict_counts.
+Print Assumptions C11_mixed_winding_number.
+Print Assumptions C11_mixed_even_odd.
+Print Assumptions C11_polygon_mixed_query.
+Print Assumptions C11_tri_mixed_query.
+Print Assumptions C11_dD_at_4_balance.
+Print Assumptions C11_lens_query.
+Print Assumptions C11_lens_inside.
+Print Assumptions C11_lens_winding.
